@@ -671,6 +671,16 @@ class Env(object):
         self.observed.append((label, value))
 
 
+def memo(env, cache, key, fn):
+    """Oracle terms depend only on the (identically named) input symbols, not on the path: build them once per
+    obligation in symbolic mode.  Concrete runs always recompute."""
+    if not env.symbolic:
+        return fn()
+    if key not in cache:
+        cache[key] = fn()
+    return cache[key]
+
+
 # --------------------------------------------------------------------------
 # model extraction
 # --------------------------------------------------------------------------
